@@ -193,6 +193,8 @@ BASE_CONFIGS = [
     ([2, 2, 2], 2, 1, 1, 2, 0),
     ([4, 3, 4], 2, 2, 0, 0, 3),
     ([3, 4], 3, 1, 1, 1, 3),
+    ([3, 3, 3], 2, 4, 0, 0, 1),      # initial ranks above what the unfoldings can carry (clipped by the pre-iteration)
+    ([4, 6], 3, 5, 0, 0, 2),
 ]
 
 
